@@ -69,6 +69,8 @@ def mix_tags(case):
     line, out = case.get('line', ''), case.get('real') or ''
     kind = line.split('|', 1)[0]
     tags = ['kind:' + kind]
+    if case.get('python'):
+        tags.append('interpreter:' + case['python'].split('/versions/')[-1].split('/')[0])
     if case.get('pyflags'):
         tags.append('interpreter:python ' + ' '.join(case['pyflags']) + (' TZ=' + case['env'].get('TZ', '') if case.get('env') else ''))
     if out.startswith('EXC:') or ' EXC:' in out or '=EXC:' in out:
